@@ -2,14 +2,18 @@ package main
 
 import (
 	"encoding/json"
-	"go/ast"
 	"flag"
 	"fmt"
+	"go/ast"
+	"go/parser"
+	"go/token"
 	"os"
+	"os/exec"
 	"path/filepath"
 	"runtime"
 	"sort"
 	"strings"
+	"sync"
 	"time"
 
 	"golang.org/x/tools/go/packages"
@@ -29,7 +33,10 @@ func loadWorld(pkgPattern string, harnessFiles []string) (*World, *ssa.Package, 
 		return nil, nil, err
 	}
 	overlay[filepath.Join(repoDir, "zz_verifrt", "rt.go")] = rtSrc
-	rtFiles, _ := filepath.Glob(filepath.Join(verifDir, "rt", "*.go"))
+	rtFiles, err := rtFilesFor(pkgPattern)
+	if err != nil {
+		return nil, nil, err
+	}
 	for _, f := range rtFiles {
 		if ms, err := os.ReadFile(f); err == nil {
 			overlay[filepath.Join(repoDir, "zz_verifrt", filepath.Base(f))] = ms
@@ -74,6 +81,7 @@ func loadWorld(pkgPattern string, harnessFiles []string) (*World, *ssa.Package, 
 			target = spkgs[i]
 		}
 	}
+	optSeen := map[string]bool{}
 	// register Go-source models: functions in zz_verifrt carrying a "//gosmt:model <target>" comment
 	var rtSyntax *packages.Package
 	packages.Visit(pkgs, nil, func(p *packages.Package) {
@@ -101,6 +109,7 @@ func loadWorld(pkgPattern string, harnessFiles []string) (*World, *ssa.Package, 
 						if len(parts) == 2 && optModels[parts[0]] {
 							if fn := rtSSA.Func(fd.Name.Name); fn != nil {
 								w.modelFn[parts[1]] = fn
+								optSeen[parts[0]] = true
 							}
 						}
 					}
@@ -108,7 +117,89 @@ func loadWorld(pkgPattern string, harnessFiles []string) (*World, *ssa.Package, 
 			}
 		}
 	}
+	for tag, on := range optModels {
+		if on && !optSeen[tag] {
+			return nil, nil, fmt.Errorf("optional model %q requested for %s but no rt file providing it could be loaded there", tag, pkgPattern)
+		}
+	}
 	return w, target, nil
+}
+
+const repoModPath = "github.com/aperturerobotics/bifrost"
+
+var (
+	rtDepsMu    sync.Mutex
+	rtDepsCache = map[string]map[string]bool{}
+)
+
+// repoDeps returns the transitive import closure (including itself) of a package of /repo.
+func repoDeps(importPath string) (map[string]bool, error) {
+	rtDepsMu.Lock()
+	defer rtDepsMu.Unlock()
+	if d, ok := rtDepsCache[importPath]; ok {
+		return d, nil
+	}
+	cmd := exec.Command("go", "list", "-deps", importPath)
+	cmd.Dir = repoDir
+	env := []string{}
+	for _, e := range os.Environ() {
+		if strings.HasPrefix(e, "GOTOOLCHAIN=") || strings.HasPrefix(e, "GOFLAGS=") || strings.HasPrefix(e, "GOSUMDB=") {
+			continue
+		}
+		env = append(env, e)
+	}
+	cmd.Env = append(env, "GOFLAGS=-mod=mod", "GOPROXY=off", "GOTOOLCHAIN=auto")
+	out, err := cmd.Output()
+	if err != nil {
+		return nil, fmt.Errorf("go list -deps %s: %v", importPath, err)
+	}
+	d := map[string]bool{}
+	for _, ln := range strings.Split(string(out), "\n") {
+		if ln = strings.TrimSpace(ln); ln != "" {
+			d[ln] = true
+		}
+	}
+	rtDepsCache[importPath] = d
+	return d, nil
+}
+
+// rtFilesFor lists the files of /verif/rt that make up the virtual package zz_verifrt when harnesses
+// are injected into package pkgPattern of /repo. A harness imports zz_verifrt, so an rt file that
+// itself imports a package of /repo (only optional models do) must be left out when the harness's
+// package is that package or one of its dependencies - otherwise the overlay closes an import cycle.
+func rtFilesFor(pkgPattern string) ([]string, error) {
+	all, _ := filepath.Glob(filepath.Join(verifDir, "rt", "*.go"))
+	sort.Strings(all)
+	target := repoModPath + strings.TrimPrefix(pkgPattern, ".")
+	var files []string
+	for _, f := range all {
+		pf, err := parser.ParseFile(token.NewFileSet(), f, nil, parser.ImportsOnly)
+		if err != nil {
+			return nil, err
+		}
+		skip := false
+		for _, im := range pf.Imports {
+			ip := strings.Trim(im.Path.Value, "\"`")
+			if ip != repoModPath && !strings.HasPrefix(ip, repoModPath+"/") {
+				continue
+			}
+			deps, err := repoDeps(ip)
+			if err != nil {
+				return nil, err
+			}
+			if deps[target] {
+				skip = true
+			}
+		}
+		if skip {
+			if filepath.Base(f) == "rt.go" {
+				return nil, fmt.Errorf("rt.go must not import packages of %s", repoModPath)
+			}
+			continue
+		}
+		files = append(files, f)
+	}
+	return files, nil
 }
 
 // optModels is the set of optional model tags ("gosmt:model-opt <tag> <target>") enabled for the
